@@ -7,6 +7,8 @@ result are observed by ID, and the Lean driver evaluates `C10.holds` on these ob
 compares the result with the model's."""
 import copy
 import json
+import random
+import warnings
 
 from . import core
 
@@ -121,6 +123,19 @@ def gen_case(rng, quick, force=None):
         # ids whose sorted order differs from every "natural" reading
         universe = rng.sample(["10", "2", "1", "Z", "a", "B", "b10", "b9", "é", "z", "µ", "日本", "a b", "a.b", "_"],
                               min(len(universe), 15))
+    idstyle = force.get("idstyle", rng.choice(["plain", "plain", "plain", "tricky"]))
+    if idstyle == "tricky":
+        # IDs live in fixed-width numpy arrays: near-duplicates (extension, prefix, case, blank), an ID ending in a
+        # newline, IDs much longer than the others (they enter operands through padding / concatenation), non-ASCII
+        base = core.gen_ids(rng, 3, "x", alphabet)
+        var = core.tricky_unknown_ids(base) + [base[0] + "\n", base[1] + "é日本", "x" + "L" * 40]
+        rng.shuffle(var)
+        universe = list(dict.fromkeys(base[:2] + var))[:max(3, len(universe))]
+        rng.shuffle(universe)
+        abase = core.gen_ids(rng, 3, "A" if axis == "sample" else "R", alphabet)
+        avar = core.tricky_unknown_ids(abase) + [abase[0] + "\n", abase[1] + "µµµ", abase[0] + "_" * 30]
+        rng.shuffle(avar)
+        apool = list(dict.fromkeys(abase + avar + apool))
     classes = rng.choice([("count",), ("smallcount",), ("dyadic",), ("count", "neg"), ("dyadic", "neg", "count"),
                           ("big", "tiny", "bits")])
     ops = []
@@ -175,24 +190,102 @@ def gen_case(rng, quick, force=None):
                     o["hist"] = "none"
     single = (k == 2 and rng.random() < 0.4)
     entry = force.get("entry", rng.choice(["method", "method", "module"]))
-    return {"axis": axis, "ops": ops, "mode": "single" if (single and entry == "method") else "list",
-            "entry": entry, "default_axis": axis == "sample" and rng.random() < 0.3, "exact": set(classes) <= set(EXACT)}
+    rec = {"axis": axis, "ops": ops, "mode": "single" if (single and entry == "method") else "list",
+           "entry": entry, "default_axis": axis == "sample" and rng.random() < 0.3, "exact": set(classes) <= set(EXACT)}
+    rec.update(gen_hardening(rng))
+    return rec
+
+
+def gen_hardening(rng):
+    """what surrounds the call: layout left behind by earlier reads, error profile, spelling of the axis argument,
+    what happens to the live tables afterwards"""
+    return {"poke": rng.randrange(1 << 30) if rng.random() < 0.6 else None,
+            "profile": rng.choice([None] * 7 + ["warn", "call", "raise"]),
+            "axis_pos": rng.random() < 0.2,
+            "post": rng.choice([None] * 5 + ["mutate_result", "mutate_operand", "altcall"]),
+            "post_seed": rng.randrange(1 << 30)}
+
+
+def gen_wide(rng, axis, wide_on):
+    """a few large operand sets per run: >= 64 IDs on the other axis (permuted, partly missing) or on the
+    concatenation axis"""
+    k = rng.choice([2, 3])
+    n_wide = rng.choice([64, 70, 100, 130])
+    ops = []
+    if wide_on == "other":
+        universe = ["W%03d" % i for i in range(n_wide)]
+        for i in range(k):
+            oids = [x for x in universe if rng.random() < 0.9] if rng.random() < 0.7 else list(universe)
+            rng.shuffle(oids)
+            aids = ["%s%d_%d" % ("A" if axis == "sample" else "R", i, j) for j in range(rng.randint(1, 2))]
+            grid = core.gen_grid(rng, len(aids), len(oids), 0.5, ("count",))
+            spec = make_spec(axis, aids, oids, grid, gen_md_mixed(rng, aids, "t%d" % i),
+                             gen_md_mixed(rng, oids, "t%d" % i) if rng.random() < 0.3 else None, None)
+            ops.append({"spec": spec, "route": rng.choice(core.ROUTES), "hist": "none"})
+    else:
+        universe = ["w1", "w0", "w2"]
+        for i in range(k):
+            oids = list(universe)
+            rng.shuffle(oids)
+            if rng.random() < 0.5:
+                oids = oids[:2]
+            aids = ["%s%d_%03d" % ("A" if axis == "sample" else "R", i, j) for j in range(n_wide if i < 2 else 3)]
+            grid = core.gen_grid(rng, len(aids), len(oids), 0.5, ("count",))
+            spec = make_spec(axis, aids, oids, grid, gen_md_mixed(rng, aids, "t%d" % i) if rng.random() < 0.5 else None,
+                             None, None)
+            ops.append({"spec": spec, "route": rng.choice(core.ROUTES), "hist": "none"})
+    rec = {"axis": axis, "ops": ops, "mode": "list", "entry": rng.choice(["method", "module"]), "exact": True}
+    rec.update(gen_hardening(rng))
+    rec["post"] = rng.choice([None, "altcall"])
+    return rec
 
 
 # ----------------------------------------------------------------------------- running the real code
-def run_real(tables, axis, mode, entry, default_axis=False):
+def call_concat(tables, axis, mode, entry, default_axis=False, axis_pos=False):
     import biom
-    kw = {} if default_axis else {"axis": axis}
+    if default_axis and axis == "sample":
+        args, kw = (), {}
+    elif axis_pos:
+        args, kw = (axis,), {}
+    else:
+        args, kw = (), {"axis": axis}
+    if entry == "module":
+        return biom.concat(list(tables), *args, **kw)
+    if mode == "single":
+        return tables[0].concat(tables[1], *args, **kw)
+    return tables[0].concat(list(tables[1:]), *args, **kw)
+
+
+def run_real(tables, axis, mode, entry, default_axis=False, axis_pos=False, profile=None):
+    """run the real method (optionally under a non-default error profile); returns (outcome, table, profile_ok)"""
+    import biom.err as E
+    before = dict(E.geterr())
+    old_cb = None
+    inside_ok = True
     try:
-        if entry == "module":
-            r = biom.concat(list(tables), **kw)
-        elif mode == "single":
-            r = tables[0].concat(tables[1], **kw)
+        if profile is None:
+            r = call_concat(tables, axis, mode, entry, default_axis, axis_pos)
         else:
-            r = tables[0].concat(list(tables[1:]), **kw)
+            if profile == "call":
+                old_cb = E.geterrcall("empty")
+                E.seterrcall("empty", lambda item: None)
+            with warnings.catch_warnings():
+                warnings.simplefilter("ignore")
+                with E.errstate(empty=profile):
+                    try:
+                        r = call_concat(tables, axis, mode, entry, default_axis, axis_pos)
+                    finally:
+                        # the call itself must leave the profile in force as it found it
+                        inside_ok = dict(E.geterr()) == dict(before, empty=profile)
     except Exception as e:  # noqa
-        return {"error": core.err_name(e)}, None
-    return {"ok": core.table_obs(r)}, r
+        out, r = {"error": core.err_name(e)}, None
+    else:
+        # observed right after the call, before any other accessor touches the result
+        out = {"ok": core.table_obs(r)}
+    finally:
+        if old_cb is not None:
+            E.seterrcall("empty", old_cb)
+    return out, r, inside_ok and dict(E.geterr()) == before
 
 
 def slim(o):
@@ -214,6 +307,155 @@ def branches(tobs, axis):
     return out
 
 
+def own_lookups(t, o, rng, max_cells=30):
+    """the live table answers by-ID queries through its OWN lookups exactly as its observation `o` says
+    (index/exists/get_value_by_ids/data/metadata by ID, look-alike IDs refused); queries in random order.
+    Returns None or a short description of the first wrong answer."""
+    q = []
+    for ax, key, mdk in (("observation", "obs", "omd"), ("sample", "samp", "smd")):
+        ids = o[key]
+        for pos, i in enumerate(ids):
+            q.append(("index", ax, i, pos))
+            q.append(("md", ax, i, None if o[mdk] is None else o[mdk][pos]))
+        for u in core.tricky_unknown_ids(ids)[:4]:
+            q.append(("unknown", ax, u, None))
+        if ids and o["obs"] and o["samp"]:
+            pos = rng.randrange(len(ids))
+            q.append(("vector", ax, ids[pos], pos))
+    cells = [(a, b) for a in range(len(o["obs"])) for b in range(len(o["samp"]))]
+    if len(cells) > max_cells:
+        cells = rng.sample(cells, max_cells)
+    for a, b in cells:
+        q.append(("cell", None, (o["obs"][a], o["samp"][b]), o["rows"][a][b]))
+    rng.shuffle(q)
+    for kind, ax, arg, want in q:
+        try:
+            if kind == "index":
+                got = (int(t.index(arg, ax)), bool(t.exists(arg, ax)))
+                want = (want, True)
+            elif kind == "md":
+                m = t.metadata(arg, axis=ax)
+                got = None if m is None else core.canon_md_entry(m)
+            elif kind == "unknown":
+                got = bool(t.exists(arg, ax))
+                want = False
+            elif kind == "vector":
+                got = [core.frac(x) for x in t.data(arg, axis=ax, dense=True)]
+                want = o["rows"][want] if ax == "observation" else [r[want] for r in o["rows"]]
+            else:
+                got = core.frac(t.get_value_by_ids(arg[0], arg[1]))
+        except Exception as e:  # noqa
+            got = "raised " + type(e).__name__
+        if got != want:
+            return "%s(%r, %s) answered %r, observation says %r" % (kind, arg, ax, got, want)
+    return None
+
+
+def mutate_inplace(t, rng, exact):
+    """in-place changes that keep the same matrix / ID-array / metadata container objects"""
+    done = []
+    for op in rng.sample(["update_ids", "md_key", "del_md", "transform", "add_md"], rng.randint(1, 3)):
+        ax = rng.choice(AXES)
+        ids = [str(i) for i in t.ids(axis=ax)]
+        try:
+            if op == "update_ids" and ids:
+                t.update_ids({i: i + "~m" for i in ids}, axis=ax, inplace=True)
+            elif op == "md_key":
+                md = t.metadata(axis=ax)
+                if md:
+                    md[rng.randrange(len(md))]["src"] = "MUT"
+            elif op == "del_md":
+                t.del_metadata(keys=["src"], axis=ax)
+            elif op == "transform" and exact and min(t.shape) > 0:
+                t.transform(lambda v, i, m: v * 2, axis=ax, inplace=True)
+            elif op == "add_md" and ids:
+                t.add_metadata({ids[0]: {"added": "yes"}}, axis=ax)
+            else:
+                continue
+            done.append(op + ":" + ax)
+        except Exception as e:  # noqa
+            done.append(op + ":" + ax + "!" + type(e).__name__)
+    return done
+
+
+def evaluate(ctx, tables, recipe, tags, stage, axis=None, profile=None, poke_rng=None, look_rng=None):
+    """one call of the real method on live tables, judged by the Lean predicate; returns (answer, result table,
+    operand observations, result observation)"""
+    axis = axis or recipe["axis"]
+    mode = recipe["mode"] if len(tables) == 2 or recipe["mode"] == "list" else "list"
+    entry = recipe["entry"]
+    look_rng = look_rng or random.Random(recipe.get("post_seed", 0))
+    tobs = [slim(core.table_obs(t)) for t in tables]
+    if poke_rng is not None:
+        # leave every operand in whatever layout a few earlier reads put it in
+        import numpy as np
+        with warnings.catch_warnings(), np.errstate(all="ignore"):
+            warnings.simplefilter("ignore")
+            for t in tables:
+                for c in core.poke_layout(t, poke_rng):
+                    ctx.count("poke=" + c.split("!")[0])
+    res, r, prof_ok = run_real(tables, axis, mode, entry, recipe.get("default_axis", False) and stage == "call",
+                               recipe.get("axis_pos", False), profile)
+    req = {"axis": axis, "tables": tobs, "mode": mode, "entry": entry,
+           "result": {"ok": slim(res["ok"])} if "ok" in res else res}
+    case = {"recipe": dict(recipe, exact=bool(recipe.get("exact"))), "stage": stage, "req": req}
+    key = "obs" if axis == "observation" else "samp"
+    br = branches(tobs, axis)
+    k = len(tobs)
+    tags = list(tags) + ["axis=" + axis, "k=%d" % k, "stage=" + stage] + ["branch=" + b for b in sorted(set(br))]
+    if profile:
+        tags.append("profile=" + profile)
+    if not prof_ok:
+        ctx.fail(case, "error-profile-restored", tags)
+    # operands are never changed by the call, refused or not, and stay coherent
+    for i, t in enumerate(tables):
+        if slim(core.table_obs(t)) != tobs[i]:
+            ctx.fail(case, "operand-unchanged-by-call", tags + ["operand=%d" % i])
+        elif "error" in res or look_rng.random() < 0.15:
+            bad = own_lookups(t, tobs[i], look_rng)
+            if bad:
+                ctx.fail(case, "operand-own-lookups", tags + ["operand=%d" % i], detail={"what": bad})
+    if profile == "raise" and res.get("error") == "TableException" and any(0 in t.shape for t in tables):
+        # an empty (intermediate or final) table under empty='raise': the profile, not concat, decides (C20)
+        ctx.count("profile-raise-on-empty")
+        return None, None, tobs, None
+    nontrivial = k >= 2 and ("error" in res or any(b != "asis" for b in br) or any(t[key] for t in tobs[1:]))
+    ctx.case({"axis": axis, "tables": tobs, "mode": mode, "entry": entry}, nontrivial=nontrivial)
+    ans = ctx.driver.ask(req)
+    ctx.count("k=%d" % k)
+    ctx.count("axis=" + axis)
+    ctx.count("outcome=" + ("ok" if "ok" in res else res["error"]))
+    ctx.count("stage=" + stage)
+    if profile:
+        ctx.count("profile=" + profile)
+    for b in set(br):
+        ctx.count("branch=" + b)
+    ctx.count("entry=%s/%s" % (entry, mode))
+    if any(t["omd"] is not None or t["smd"] is not None for t in tobs):
+        ctx.count("with-metadata")
+    if max(len(t["obs"]) for t in tobs) >= 64 or max(len(t["samp"]) for t in tobs) >= 64:
+        ctx.count("wide>=64")
+    if not ans.get("model_holds", True):
+        ctx.diverge(case, "theorem model_holds contradicted by the driver", tags, detail={"model": ans["model"]})
+    if not ans["holds"]:
+        ctx.fail(case, ans["clause"], tags, detail={"model": ans["model"]})
+        return ans, r, tobs, None
+    if not ans["agree"]:
+        ctx.diverge(case, "result differs from the model (other-axis order/metadata, type or error class)", tags,
+                    detail={"model": ans["model"]})
+    robs = None
+    if r is not None:
+        robs = slim(res["ok"])
+        # the result answers through its own lookups what its dense observation says
+        bad = own_lookups(r, robs, look_rng)
+        if bad:
+            ctx.fail(case, "result-own-lookups", tags, detail={"what": bad})
+        # the library's own sum() agrees with the operands' (values chosen so that float sums are exact)
+        if recipe.get("exact") and float(r.sum()) != float(sum(float(t.sum()) for t in tables)):
+            ctx.fail(case, "grand-total-sum-api", tags)
+    return ans, r, tobs, robs
+
+
 def check_case(ctx, recipe, tags=()):
     axis = recipe["axis"]
     try:
@@ -227,38 +469,48 @@ def check_case(ctx, recipe, tags=()):
             # empty dense input): not a table of the C01 domain; the same content goes in through scipy instead
             tables[i] = build_operand(dict(recipe["ops"][i], route="csr", hist="none"), axis)
             ctx.count("degenerate-dense-rebuilt-as-csr")
-    tobs = [slim(core.table_obs(t)) for t in tables]
-    res, r = run_real(tables, axis, recipe["mode"], recipe["entry"], recipe.get("default_axis", False))
-    req = {"axis": axis, "tables": tobs, "mode": recipe["mode"], "entry": recipe["entry"],
-           "result": {"ok": slim(res["ok"])} if "ok" in res else res}
-    case = {"recipe": dict(recipe, exact=bool(recipe.get("exact"))), "req": req}
-    key = "obs" if axis == "observation" else "samp"
-    br = branches(tobs, axis)
-    k = len(tobs)
-    nontrivial = k >= 2 and ("error" in res or any(b != "asis" for b in br) or any(t[key] for t in tobs[1:]))
-    ctx.case({"axis": axis, "tables": tobs, "mode": recipe["mode"], "entry": recipe["entry"]}, nontrivial=nontrivial)
-    ans = ctx.driver.ask(req)
-    ctx.count("k=%d" % k)
-    ctx.count("axis=" + axis)
-    ctx.count("outcome=" + ("ok" if "ok" in res else res["error"]))
-    for b in set(br):
-        ctx.count("branch=" + b)
-    ctx.count("entry=%s/%s" % (recipe["entry"], recipe["mode"]))
-    if any(t["omd"] is not None or t["smd"] is not None for t in tobs):
-        ctx.count("with-metadata")
-    tags = list(tags) + ["axis=" + axis, "k=%d" % k] + ["branch=" + b for b in sorted(set(br))]
-    if not ans.get("model_holds", True):
-        ctx.diverge(case, "theorem model_holds contradicted by the driver", tags, detail={"model": ans["model"]})
-    if not ans["holds"]:
-        ctx.fail(case, ans["clause"], tags, detail={"model": ans["model"]})
+    poke_rng = random.Random(recipe["poke"]) if recipe.get("poke") is not None else None
+    prng = random.Random(recipe.get("post_seed", 0))
+    ans, r, tobs, robs = evaluate(ctx, tables, recipe, tags, "call", profile=recipe.get("profile"),
+                                  poke_rng=poke_rng, look_rng=prng)
+    post = recipe.get("post")
+    if not post:
         return ans
-    if not ans["agree"]:
-        ctx.diverge(case, "result differs from the model (other-axis order/metadata, type or error class)", tags,
-                    detail={"model": ans["model"]})
-    # the library's own sum() agrees with the operands' (values chosen so that float sums are exact)
-    if r is not None and recipe.get("exact"):
-        if float(r.sum()) != float(sum(float(t.sum()) for t in tables)):
-            ctx.fail(case, "grand-total-sum-api", tags)
+    ctx.count("post=" + post)
+    case = {"recipe": dict(recipe, exact=bool(recipe.get("exact"))), "stage": post}
+    ptags = list(tags) + ["axis=" + axis, "k=%d" % len(tables), "post=" + post]
+    if post == "mutate_result" and r is not None:
+        # in-place changes of the RESULT must not reach any operand
+        done = mutate_inplace(r, prng, recipe.get("exact"))
+        for i, t in enumerate(tables):
+            if slim(core.table_obs(t)) != tobs[i]:
+                ctx.fail(case, "alias-operand-changed-with-result", ptags + ["operand=%d" % i], detail={"did": done})
+            else:
+                bad = own_lookups(t, tobs[i], prng)
+                if bad:
+                    ctx.fail(case, "alias-operand-lookups-after-result-change", ptags, detail={"did": done, "what": bad})
+    elif post == "mutate_operand":
+        # in-place changes of an OPERAND must not reach the result or the other operands; the same call again is
+        # judged against the operands' CURRENT content (nothing remembered by object identity)
+        j = prng.randrange(len(tables))
+        done = mutate_inplace(tables[j], prng, recipe.get("exact"))
+        if r is not None and robs is not None:
+            if slim(core.table_obs(r)) != robs:
+                ctx.fail(case, "alias-result-changed-with-operand", ptags + ["operand=%d" % j], detail={"did": done})
+            else:
+                bad = own_lookups(r, robs, prng)
+                if bad:
+                    ctx.fail(case, "alias-result-lookups-after-operand-change", ptags, detail={"did": done, "what": bad})
+        for i, t in enumerate(tables):
+            if i != j and slim(core.table_obs(t)) != tobs[i]:
+                ctx.fail(case, "alias-operand-changed-with-operand", ptags + ["operand=%d" % i], detail={"did": done})
+        evaluate(ctx, tables, recipe, list(tags) + ["after=" + ",".join(done)], "recall-after-inplace",
+                 poke_rng=prng, look_rng=prng)
+    elif post == "altcall":
+        # the same live objects again: other axis, then reversed operand order (nothing kept from the first call)
+        evaluate(ctx, tables, recipe, tags, "other-axis", axis=other_of(axis), look_rng=prng)
+        evaluate(ctx, list(reversed(tables)), recipe, tags, "reversed", poke_rng=prng, look_rng=prng)
+        evaluate(ctx, tables, recipe, tags, "again", look_rng=prng)
     return ans
 
 
@@ -353,17 +605,34 @@ def run(ctx):
                 "missing/disjoint/mixed, per-operand metadata on either axis or none, 9 layout routes, operand "
                 "histories (copy, filter, sort_order on either axis, transpose, prior concat, update_ids, "
                 "del_metadata), single table vs list, Table.concat vs biom.concat, 12% with an ID shared by two "
-                "operands. Distinct = distinct (axis, operand observations, mode, entry); non-trivial = k >= 2 and "
-                "(refused, or some operand padded/re-sorted, or a later operand contributes vectors).")
+                "operands; 25% with look-alike / over-long / newline-terminated / multi-byte IDs on both axes; a few "
+                "sets with >= 64 IDs on one axis. Around the call: operands left in a random layout by earlier reads "
+                "(60%), error profile empty=warn/call/raise (30%), positional axis argument (20%); afterwards (3 in 8) "
+                "in-place changes of the result or of an operand with every other live table required unchanged and "
+                "the call repeated on the current content, or the same objects concatenated along the other axis / "
+                "in reversed order / again. Every result and every refused call's operands must answer by-ID queries "
+                "through their own lookups. Distinct = distinct (axis, operand observations, mode, entry); "
+                "non-trivial = k >= 2 and (refused, or some operand padded/re-sorted, or a later operand contributes "
+                "vectors).")
     ctx.assumptions = ["values cross as exact rationals; concat computes nothing, so totals are compared exactly over "
                        "Rat; the library's float sum() is compared only for integer/dyadic value classes",
                        "the iteration order of Python's set of missing IDs is not observed (erased by sort_order; "
                        "Lean: padSort_missing_order)"]
-    for rec in fixed_corpus():
-        check_case(ctx, rec, tags=["fixed-corpus"])
-    edge_stream(ctx)
     rng = ctx.rng
     quick = ctx.quick()
+    for rec in fixed_corpus():
+        check_case(ctx, rec, tags=["fixed-corpus"])
+    # the fixed corpus once more with everything that can surround a call
+    for n, rec in enumerate(fixed_corpus()):
+        check_case(ctx, dict(rec, poke=n, profile=[None, "warn", "call", "raise"][n % 4], axis_pos=n % 2 == 0,
+                             post=["mutate_result", "mutate_operand", "altcall"][n % 3], post_seed=n),
+                   tags=["fixed-corpus", "hardened"])
+    edge_stream(ctx)
+    # size thresholds: a few large operand sets, early and on both axes
+    for _ in range(1 if quick else 10):
+        for axis in AXES:
+            for wide_on in ("other", "axis"):
+                check_case(ctx, gen_wide(rng, axis, wide_on), tags=["wide"])
     # systematic sweep: every (axis, k, mode, entry) combination at least a few times
     reps = 2 if quick else 12
     for axis in AXES:
@@ -376,9 +645,9 @@ def run(ctx):
                 for _ in range(reps):
                     if k >= 2:
                         check_case(ctx, gen_case(rng, quick, {"axis": axis, "k": k, "mode": mode, "overlap": True}))
-    budget = 38 if quick else 540
+    budget = 24 if quick else 540
     n = 0
-    limit = 5000 if quick else 120000
+    limit = 3000 if quick else 120000
     while n < limit and ctx.time_left(budget) > 0:
         check_case(ctx, gen_case(rng, quick))
         n += 1
